@@ -122,6 +122,10 @@ structure ProvideOpts where
   export_  : Bool := false
   cb       : Bool := false
   info     : Bool := false
+  /-- `dig.LocationForPC(pc)` with the code pointer of function `loc`: the constructor is *reported* (error texts,
+      DOT labels, `CallbackInfo.Name`) as that function; its identity (`ProvideInfo.ID`, DOT constructor ID) stays
+      the provided function's -/
+  loc      : Option Nat := none
   deriving Repr, Inhabited
 
 inductive Op where
